@@ -70,7 +70,13 @@ def run_mutants(mutants, props=None, verbose=True):
             continue
         root = make_scratch()
         try:
-            apply_edits(root, m["edits"])
+            try:
+                apply_edits(root, m["edits"])
+            except RuntimeError as e:
+                results.append((m, "STALE", str(e)))
+                if verbose:
+                    print("%-44s STALE        %s" % (m["id"], str(e)[:160]))
+                continue
             try:
                 rc, new, known, out = run_on(root, m["prop"])
             except common.FactsError as e:
